@@ -43,6 +43,7 @@ class Runner:
         mod = importlib.util.module_from_spec(spec)
         sys.modules[modname] = mod
         mod.GR = 77
+        mod.GN = None            # a module global that exists and holds None
         spec.loader.exec_module(mod)
         return mod
 
